@@ -501,7 +501,9 @@ def check_canonical_value64(ctx, P, B, rule="canonical-value"):
         if hf is None:
             ctx.lost(rule, T + "::" + h, "helper not found")
             return
-        r = ssa.Eval(P, hf, inline=lambda n: False, auto=False).run()
+        # sub-helpers of a carry helper (a shared chain) are inlined; the two named helpers themselves are the rule's units
+        _ah = ssa.auto_inline(P, hf)
+        r = ssa.Eval(P, hf, inline=lambda n: _ah(n) and not (n.endswith("::carry_full") or n.endswith("::carry_final")), auto=False).run()
         intern.Interner().canon_result(r)
         ret = r.ret
         if not isinstance(ret, ssa.Agg):
